@@ -89,6 +89,19 @@ Proof.
   intros _. cmp_hyps. split; [lra|exact E3].
 Qed.
 
+(* the point handed to the direction test is the end of the step, old + v * s (not the wrapped coordinate): the tested
+   vector is the step itself, so an accepted step of positive length lies on the reference side of the plane *)
+Lemma step_vector old v s : vsub (vadd old (vscale_r v s)) old = vscale_r v s.
+Proof. unfold vsub, vadd, vscale_r, v0, v1, v2, num in *. cbn [fst snd]. f_equal; [f_equal|]; ring. Qed.
+
+Lemma direction_of_the_step old v s n ref ang :
+  is_restricted_tail (vadd old (vscale_r v s)) old n ref ang = true ->
+  nsign (s * vdot n v) = nsign ref /\ ang <= Rabs ref.
+Proof.
+  intros H. apply direction_sound in H. rewrite step_vector in H. destruct H as [H1 H2]. split; [|exact H2].
+  rewrite <- H1. f_equal. unfold vdot, vscale_r, v0, v1, v2, num in *. cbn [fst snd]. ring.
+Qed.
+
 (* ---- distance restraints: the window stored for the restrained (target) residue ---- *)
 Lemma target_window avg d tol g : g <> 0 ->
   upper_bound 1 avg d tol = d + tol + avg /\
